@@ -816,3 +816,101 @@ def gen_c11(seed, n, start_id=0):
             counted(commits)
         out.append((hid, lines))
     return out
+
+
+# ---------------------------------------------------------------------------------------------
+# C18: programs over the ordered key-value contract
+
+KV_PREFIXES = [b"p", b"p\xff", b"\xff", b"\xff\xff", b"p\x00", b"a\xff\xff", b"\x00", b"pq"]
+
+
+def _incr(bz):
+    """big-endian increment with carry, trailing bytes after the incremented one cut (None on overflow)"""
+    b = bytearray(bz)
+    for i in range(len(b) - 1, -1, -1):
+        if b[i] < 0xFF:
+            b[i] += 1
+            return bytes(b[:i + 1])
+    return None
+
+
+def gen_kv(seed, n, start_id=0):
+    out = []
+    alphabet = [b"\x00", b"\xff", b"a", b"b", b"p", b"q"]
+    for i in range(n):
+        r = random.Random((seed * 15485863 + start_id + i) & 0xFFFFFFFFFFFF)
+        hid = "k%d" % (start_id + i)
+        pfx = r.choice(KV_PREFIXES)
+        lines = ["knew %s pfx=%s" % (hid, enc(pfx))]
+
+        def key():
+            x = r.random()
+            if x < 0.03:
+                return None
+            if x < 0.06:
+                return b""
+            return bytes(r.choice(alphabet)[0:1][0:1] [0:1] if False else r.choice(alphabet)) if r.random() < 0.4 else \
+                b"".join(r.choice(alphabet) for _ in range(r.randint(1, 3)))
+
+        def val():
+            x = r.random()
+            if x < 0.04:
+                return None
+            if x < 0.1:
+                return b""
+            return bytes([r.randrange(256) for _ in range(r.randint(1, 3))])
+
+        def bound():
+            x = r.random()
+            if x < 0.3:
+                return None
+            if x < 0.34:
+                return b""
+            return b"".join(r.choice(alphabet) for _ in range(r.randint(1, 2)))
+
+        # keys of the underlying store just outside the namespace (and the namespace marker itself)
+        outside = [pfx, pfx[:-1] if len(pfx) > 1 else b"\x01", pfx[:-1] + bytes([pfx[-1] - 1]) if pfx[-1] > 0 else b"\x00"]
+        inc = _incr(pfx)
+        if inc is not None:
+            outside += [inc, inc + b"\x00", inc + b"\x00" * (len(pfx) - len(inc)), inc + b"a"]
+        outside = [k for k in outside if k and not (k.startswith(pfx) and len(k) > len(pfx))]
+        for k in r.sample(outside, r.randint(0, len(outside))):
+            lines.append("krawset %s %s" % (enc(k), enc(bytes([r.randrange(1, 256)]))))
+        if r.random() < 0.3:
+            lines.append("krawset %s %s" % (enc(pfx + r.choice(alphabet)), enc(b"in")))
+        nb = 0
+        open_batches = []
+        for _ in range(r.randint(5, 40)):
+            x = r.random()
+            if x < 0.25:
+                lines.append("kset %s %s" % (enc(key()), enc(val())))
+            elif x < 0.33:
+                lines.append("kdel %s" % enc(key()))
+            elif x < 0.43:
+                lines.append("kget %s" % enc(key()))
+            elif x < 0.5:
+                lines.append("khas %s" % enc(key()))
+            elif x < 0.62:
+                lines.append("kiter %s %s" % (enc(bound()), enc(bound())))
+            elif x < 0.74:
+                lines.append("kriter %s %s" % (enc(bound()), enc(bound())))
+            elif x < 0.78:
+                nb += 1
+                open_batches.append("b%d" % nb)
+                lines.append("kbnew b%d" % nb)
+            elif x < 0.92 and open_batches:
+                b = r.choice(open_batches)
+                y = r.random()
+                if y < 0.5:
+                    lines.append("kbset %s %s %s" % (b, enc(key()), enc(val())))
+                elif y < 0.7:
+                    lines.append("kbdel %s %s" % (b, enc(key())))
+                elif y < 0.9:
+                    lines.append("kbwrite %s" % b)
+                else:
+                    lines.append("kbclose %s" % b)
+            else:
+                lines.append("kiter - -")
+        lines += ["kiter - -", "kriter - -", "krawdump"]
+        out.append((hid, lines))
+    return out
